@@ -276,7 +276,8 @@ pub fn scenarios(tier: Tier) -> Vec<Scenario> {
         Tier::Thorough => (0..64).collect(),
     };
     let shapes: Vec<(usize, usize, usize)> = match tier {
-        Tier::Quick => vec![(1, 2, 1), (2, 1, 1), (1, 2, 2)],
+        // (three producers on a queue of one: two of them can be refused at the same moment)
+        Tier::Quick => vec![(1, 2, 1), (2, 1, 1), (1, 2, 2), (3, 1, 1)],
         Tier::Thorough => vec![(1, 2, 1), (1, 3, 1), (2, 1, 1), (2, 2, 1), (1, 3, 2), (2, 2, 2), (2, 2, 3), (3, 1, 1)],
     };
     for (producers, lines, capacity) in shapes {
@@ -287,6 +288,9 @@ pub fn scenarios(tier: Tier) -> Vec<Scenario> {
                 }
                 for &m in &masks {
                     if tier == Tier::Quick && producers == 2 && m.count_ones() > 1 {
+                        continue;
+                    }
+                    if tier == Tier::Quick && producers == 3 && (m != 0 || !lossy || !guard_after) {
                         continue;
                     }
                     v.push(Scenario { producers, lines, capacity, lossy, guard_after, fault_mask: m });
@@ -328,8 +332,30 @@ impl Write for GateWriter {
     }
 }
 
+/// probe 2: the worker's wait for the next line has no time limit (the scheduler hook models it as
+/// a wait for a non-empty queue): a line offered after an idle period is written like any other
+fn run_idle_probe() -> Vec<u8> {
+    let mut bad: Vec<String> = vec![];
+    let out = Arc::new(Mutex::new(vec![]));
+    let w = GateWriter { entered: Arc::new(AtomicBool::new(false)), open: Arc::new((Mutex::new(true), std::sync::Condvar::new())), out: out.clone(), flushed: Arc::new(AtomicUsize::new(0)) };
+    let (mut nb, guard) = NonBlockingBuilder::default().buffered_lines_limit(4).lossy(false).finish(w);
+    let _ = nb.write_all(b"l1\n");
+    std::thread::sleep(Duration::from_millis(2500));
+    let r = nb.write_all(b"l2\n");
+    drop(nb);
+    drop(guard);
+    let written = out.lock().unwrap().clone();
+    if written != ["l1\n", "l2\n"] {
+        bad.push(format!("a line offered after 2.5 s without traffic (accepted: {}) while the guard was alive: written {:?}, expected both lines", r.is_ok(), written));
+    }
+    serde_json::to_vec(&bad).unwrap()
+}
+
 pub fn run_probe(job: &[u8]) -> Vec<u8> {
     let which = job.first().copied().unwrap_or(0);
+    if which == 2 {
+        return run_idle_probe();
+    }
     let mut bad: Vec<String> = vec![];
     let entered = Arc::new(AtomicBool::new(false));
     let open = Arc::new((Mutex::new(false), std::sync::Condvar::new()));
@@ -429,7 +455,7 @@ pub fn run(args: &Args) -> i32 {
         }
         return i32::from(!bad.is_empty());
     }
-    for which in [0u8, 1] {
+    for which in [0u8, 1, 2] {
         match mc::pool::run_isolated(run_probe, &[which], Duration::from_secs(20)) {
             Outcome::Ok(b) => {
                 for m in serde_json::from_slice::<Vec<String>>(&b).unwrap_or_default() {
@@ -439,7 +465,7 @@ pub fn run(args: &Args) -> i32 {
             o => rep.violation(format!("[blocking-conformance probe {}] the probe did not finish: {:?} (a send that must wait for queue space hangs or crashes)", which, o), json!({"probe": which})),
         }
     }
-    rep.cov("blocking_conformance_probes", 2u64);
+    rep.cov("blocking_conformance_probes", 3u64);
     let f9_open = rep.is_open("F9");
     let mut pool = Pool::new(mc::pool::default_workers(), run_schedule, true, Duration::from_secs(30));
     let bound = std::env::var("VERIF_BOUND").ok().and_then(|s| s.parse().ok()).unwrap_or(args.tier.pick(2, 3));
@@ -454,7 +480,9 @@ pub fn run(args: &Args) -> i32 {
         let left = budget.saturating_sub(start.elapsed());
         let share = (left / (scs.len() - idx) as u32).max(Duration::from_millis(args.tier.pick(4000, 1000)));
         let mut st = Stats::default();
-        let cfg = ExploreCfg { bound, deadline: Instant::now() + share, max_schedules: u64::MAX, stop_on_violation: true };
+        // (quick tier: the three-producer scenario is explored with one preemption less)
+        let sc_bound = if args.tier == Tier::Quick && sc.producers == 3 { if bound > 0 { bound - 1 } else { bound } } else { bound };
+        let cfg = ExploreCfg { bound: sc_bound, deadline: Instant::now() + share, max_schedules: u64::MAX, stop_on_violation: true };
         explore(&mut pool, &serde_json::to_string(sc).unwrap(), &cfg, &mut st);
         tot.0 += st.schedules;
         tot.1 += st.tree_nodes;
@@ -487,6 +515,9 @@ pub fn run(args: &Args) -> i32 {
     rep.cov("schedules", tot.0);
     rep.cov("scenarios", scs.len() as u64);
     rep.cov("preemption_bound", bound as u64);
+    if args.tier == Tier::Quick {
+        rep.cov("preemption_bound_three_producer_scenario", (bound as u64).saturating_sub(1));
+    }
     rep.cov("bound_completed", !capped);
     rep.cov("distinct_outcomes", outcomes as u64);
     rep.cov("scenario_stats_first_40", json!(per));
